@@ -97,6 +97,7 @@ def run(ids, all_checks=False):
                     r[c] = "error rc=%d %s" % (rc, out[-200:])
             results[sid] = r
             print(sid, json.dumps(r), flush=True)
+            json.dump(results, open(resp, "w"), indent=1, sort_keys=True)
     # restore the generated constants to /repo's
     sh(["/venv/bin/python", os.path.join(VERIF, "harness", "extract.py")], cwd=VERIF)
     json.dump(results, open(resp, "w"), indent=1, sort_keys=True)
